@@ -1,0 +1,45 @@
+//go:build verif
+
+/*
+Copyright The ORAS Authors.
+Licensed under the Apache License, Version 2.0 (the "License");
+you may not use this file except in compliance with the License.
+You may obtain a copy of the License at
+
+http://www.apache.org/licenses/LICENSE-2.0
+
+Unless required by applicable law or agreed to in writing, software
+distributed under the License is distributed on an "AS IS" BASIS,
+WITHOUT WARRANTIES OR CONDITIONS OF ANY KIND, either express or implied.
+See the License for the specific language governing permissions and
+limitations under the License.
+*/
+
+package verifhooks
+
+import (
+	"context"
+
+	"golang.org/x/sync/semaphore"
+	"oras.land/oras-go/v2/internal/status"
+	"oras.land/oras-go/v2/internal/syncutil"
+)
+
+// LimitedRegion re-exports syncutil.LimitedRegion.
+type LimitedRegion = syncutil.LimitedRegion
+
+// Tracker re-exports status.Tracker.
+type Tracker = status.Tracker
+
+// Go re-exports syncutil.Go.
+func Go[T any](ctx context.Context, limiter *semaphore.Weighted, fn func(ctx context.Context, region *LimitedRegion, t T) error, items ...T) error {
+	return syncutil.Go(ctx, limiter, syncutil.GoFunc[T](fn), items...)
+}
+
+// LimitRegion re-exports syncutil.LimitRegion.
+func LimitRegion(ctx context.Context, limiter *semaphore.Weighted) *LimitedRegion {
+	return syncutil.LimitRegion(ctx, limiter)
+}
+
+// NewTracker re-exports status.NewTracker.
+func NewTracker() *Tracker { return status.NewTracker() }
